@@ -37,6 +37,7 @@ UNREACHED_LINES = [
     (r"return version_str\.split", 'fallback when the packaging module is missing'),
     (r"raise ValueError\(f\"can't interpret type_info", 'defensive: load_dict is only called with the two dictionary formats'),
     (r"position_disorder = None|obj\.position_disorder = None", LEGACY),
+    (r"obj = np\.dtype\(name\)", 'dtype groups without the member descr: ' + LEGACY + ' (reached on the current tree; unreachable once F17.13 is repaired as proposed)'),
     (r"msg = f\"Don't know how to save object of type|raise Hdf5ExportError\(msg\)", 'defensive: every python object has __reduce__'),
     (r"filled = h5gr\[\(\)\]|obj = np\.ma\.masked_equal\(filled, fill_value, copy=False\)", 'masked arrays stored without their mask: ' + LEGACY +
      ' (the current saver takes this branch only in the cases of the recorded defect F17.12)'),
